@@ -77,6 +77,7 @@ func qeRunInputs(inputs []*qeInput, flags *verifStreamFlags, meta *vMeta, roundt
 		sb.WriteString("From LMD Require Import " + runModule + ".\nOpen Scope N_scope.\nOpen Scope string_scope.\n")
 	}
 	names := []string{}
+	internals := runModule == "C07.Run" && !roundtrip // also dump the index pre-selection and the grouped stats shape
 	var lastDS *qeDataset
 	var lmd *Daemon
 	var cluster *qeCluster
@@ -122,7 +123,12 @@ func qeRunInputs(inputs []*qeInput, flags *verifStreamFlags, meta *vMeta, roundt
 			} else {
 				fmt.Fprintf(&sb, "Definition c%d : qcase := mkQ (mkCfg false true) [] true [] (OError 400).\n", i)
 			}
-			names = append(names, fmt.Sprintf("c%d", i))
+			if internals {
+				fmt.Fprintf(&sb, "Definition x%d : xcase := mkX c%d None.\n", i, i)
+				names = append(names, fmt.Sprintf("x%d", i))
+			} else {
+				names = append(names, fmt.Sprintf("c%d", i))
+			}
 			meta.add(fmt.Sprintf("invalid%d", i), false, in)
 
 			continue
@@ -172,7 +178,12 @@ func qeRunInputs(inputs []*qeInput, flags *verifStreamFlags, meta *vMeta, roundt
 			fmt.Fprintf(&sb, "Definition c%d : qcase := mkQ %s %s %s %s\n  (%s).\n", i, cfgTerm,
 				dsName, coqBool(in.Optimize), coqList(lines), obs.coq())
 		}
-		names = append(names, fmt.Sprintf("c%d", i))
+		if internals {
+			fmt.Fprintf(&sb, "Definition x%d : xcase := mkX c%d %s.\n", i, i, qeInternals(lmd, in.DS, text, in.Optimize))
+			names = append(names, fmt.Sprintf("x%d", i))
+		} else {
+			names = append(names, fmt.Sprintf("c%d", i))
+		}
 		meta.count("answer:" + obs.kind)
 		if obs.kind == "error" {
 			meta.count(fmt.Sprintf("error:%d", obs.code))
@@ -185,11 +196,16 @@ func qeRunInputs(inputs []*qeInput, flags *verifStreamFlags, meta *vMeta, roundt
 	}
 	if roundtrip {
 		sb.WriteString("Definition cases : list rcase := " + coqList(names) + ".\n")
+	} else if internals {
+		sb.WriteString("Definition cases : list xcase := " + coqList(names) + ".\n")
 	} else {
 		sb.WriteString("Definition cases : list qcase := " + coqList(names) + ".\n")
 	}
 	sb.WriteString("Definition M := Eval vm_compute in mismatches cases.\nPrint M.\n")
 	sb.WriteString("Definition SK := Eval vm_compute in skipped cases.\nPrint SK.\n")
+	if internals {
+		sb.WriteString("Definition HY := Eval vm_compute in hyp_failed cases.\nPrint HY.\n")
+	}
 	if err := os.WriteFile(flags.out, []byte(sb.String()), 0o644); err != nil {
 		panic(err)
 	}
